@@ -812,6 +812,19 @@ C03_EXPLANATIONS = {
 }
 
 
+# defect classes that have been repaired in the library (fix: commits, see known_findings.json): a failure that looks
+# like one of them is a new violation and is reported under its own signature, never attributed to the old class
+REPAIRED = {"use-xy-length-ValueError", "svg-xy-length-inherited-by-use-ValueError", "use-xy-length-shape-dropped",
+            "svg-xy-length-inherited-by-use-shape-dropped", "nested-svg-zero-size-aborts-parse",
+            "nested-svg-zero-size-rendered", "circle-r-percent", "rect-radius-not-clamped", "use-xy-percent-mixed-axes",
+            "nested-svg-xy-ignored-without-viewbox", "svg-xy-inherited-by-descendant", "root-svg-xy-applied",
+            "svg-size-inherited-by-nested-svg", "viewport-not-restored-after-nested-svg",
+            "svgz-write-truncated", "xlink-prefix-registered-duplicate-xmlns", "use-written-with-own-transform",
+            "nested-svg-write-drops-outer-viewport", "circle-unequal-radii-written-as-r",
+            "rect-unclamped-radius-not-roundtripped", "stale-attribute-written-for-zero-value",
+            "zero-size-svg-write-ZeroDivisionError"}
+
+
 def c03_classify(cat, text, cfg):
     """Defect class of a minimised witness -> (key, explanation or None)."""
     F = doc_features(text)
@@ -843,7 +856,7 @@ def c03_classify(cat, text, cfg):
             # a percentage (or the implicit 100% size of a further nested svg) somewhere and a nested svg that was
             # opened earlier in rendering order (a use may render an earlier element after it)
             key = "viewport-not-restored-after-nested-svg"
-    if key is None:
+    if key is None or key in REPAIRED:
         return "C03-%s:%s" % (cat, signature(text, cfg)), None
     return key, C03_EXPLANATIONS[key]
 
@@ -1188,7 +1201,7 @@ def c20_direct(f, inp=None, cfg=None):
         return None
     sf = f.get("shape_features") or ()
     for feat, key in _DIRECT_KEYS:
-        if feat in sf:
+        if feat in sf and key not in REPAIRED:
             return key, C20_EXPLANATIONS[key]
     return None
 
@@ -1670,7 +1683,7 @@ def c20_classify(cat, inp, cfg):
                 key = "nested-svg-write-drops-outer-viewport"
             elif "rect-radius-deferred-length" in F:
                 key = "rect-unclamped-radius-not-roundtripped"
-    if key is None:
+    if key is None or key in REPAIRED:
         sig = ("built:" + spec_signature(inp["spec"])) if built else signature(inp, cfg)
         return "C20-%s:%s" % (cat, sig), None
     return key, C20_EXPLANATIONS[key]
